@@ -319,9 +319,12 @@ class Gen:
     def values_for(self, rt, env, n, strict=False):
         """n values: members, near misses (one mutation of a member) and unrelated values."""
         out = []
+        # values of a single member of a top-level intersection: near misses of the intersection that exercise each member
+        parts = [x for x in rt[1]] if rt[0] == "AllOf" else []
         for i in range(n):
             k = self.r.random()
-            m = self.member(rt, env, strict=strict and self.r.random() < 0.7)
+            target = self.r.choice(parts) if parts and self.r.random() < 0.35 else rt
+            m = self.member(target, env, strict=strict and self.r.random() < 0.7)
             if m is None or k < 0.15:
                 out.append(self.any_value(2))
             elif k < 0.55:
